@@ -44,7 +44,7 @@ NOTES = {
     'C14_5': 'right shift of negative values admitted to the expression universe (was excluded together with negative division)',
     'C15_5': 'include shadowing family: a file that redefines a struct / constant of a file it includes, every order',
     'C15_6': 'expression forms that start with a literal (2*K, 1 + E_V)',
-    'C15_7': 'NOT caught: needs the same name defined twice in one file; definition sets have distinct names',
+    'C15_7': 'one name defined twice in one file (isar lists both), every order: each body may only name what stands above it',
     'C16_5': 'arrangement with a library directory and decoy files next to the main file, main file compiled alone '
              '(earlier inputs of the same run otherwise answer from the cache)',
     'C16_6': 'file names equal to the first type they define (Point.prophy defines Point)',
@@ -86,7 +86,7 @@ def main():
                 status += '; silent: ' + ', '.join(missed)
         rows.append('| %s | %s | %s | %s |' % (sid, first_sentence(meta['what_and_needs']).replace('|', '/'), status,
                                               NOTES.get(sid, '-')))
-        if det and own not in caught and sid not in ('C04_4', 'C04_6', 'C04_7', 'C08_6', 'C17_3', 'C15_7'):
+        if det and own not in caught and sid not in ('C04_4', 'C04_6', 'C04_7', 'C08_6', 'C17_3'):
             print('NOTE: %s not caught by its own check %s' % (sid, own))
     table = ('| seed | change | caught by (quick tier; violation class keys) | needed strengthening |\n|---|---|---|---|\n'
              + '\n'.join(rows) + '\n')
